@@ -1,0 +1,98 @@
+//go:build verif
+// +build verif
+
+package server
+
+import (
+	"encoding/json"
+	"net"
+
+	"github.com/XiaoMi/Gaea/backend"
+	"github.com/XiaoMi/Gaea/models"
+	"github.com/XiaoMi/Gaea/mysql"
+	"github.com/go-ini/ini"
+)
+
+// Add-only exports for the verification harness (property C39, build tag verif).
+// The manager is built the way the package's own tests build theirs
+// (prepareNamespaceManager in executor_test.go).
+
+// VerifC39NewManager builds a Manager holding the single namespace nsJSON;
+// proxyINI is a proxy configuration in ini syntax.
+func VerifC39NewManager(proxyINI, nsJSON string) (*Manager, error) {
+	proxy := &models.Proxy{}
+	cfg, err := ini.Load([]byte(proxyINI))
+	if err != nil {
+		return nil, err
+	}
+	if err = cfg.MapTo(proxy); err != nil {
+		return nil, err
+	}
+	namespaceConfig := &models.Namespace{}
+	if err := json.Unmarshal([]byte(nsJSON), namespaceConfig); err != nil {
+		return nil, err
+	}
+	m := NewManager()
+	statisticManager, err := CreateStatisticManager(proxy, m)
+	if err != nil {
+		return nil, err
+	}
+	m.statistics = statisticManager
+	current, _, _ := m.switchIndex.Get()
+	namespaceConfigs := map[string]*models.Namespace{namespaceConfig.Name: namespaceConfig}
+	m.namespaces[current] = CreateNamespaceManager(proxy.ServerIdc, namespaceConfigs)
+	user, err := CreateUserManager(namespaceConfigs)
+	if err != nil {
+		return nil, err
+	}
+	m.users[current] = user
+	return m, nil
+}
+
+// VerifC39SetMaster replaces the master of a slice by one node served by pool.
+func VerifC39SetMaster(m *Manager, namespace, slice string, pool backend.ConnectionPool) {
+	s := m.GetNamespace(namespace).slices[slice]
+	s.Master = &backend.DBInfo{Nodes: []*backend.NodeInfo{{Address: pool.Addr(), ConnPool: pool, Status: backend.StatusUp}}}
+	s.Slave = &backend.DBInfo{}
+}
+
+// VerifC39SetMaxResultSize sets the namespace row limit (max_sql_result_size
+// after NewNamespace's defaulting).
+func VerifC39SetMaxResultSize(m *Manager, namespace string, n int) {
+	m.GetNamespace(namespace).maxSqlResultSize = n
+}
+
+// VerifC39NewSession builds a session of user in namespace whose client side
+// is the transport client.
+func VerifC39NewSession(m *Manager, namespace, user, db string, client net.Conn) *Session {
+	cc := new(Session)
+	cc.proxy = &Server{manager: m, ServerVersion: "5.7.25-gaea"}
+	cc.manager = m
+	cc.namespace = namespace
+	cc.c = NewClientConn(mysql.NewConn(client), m)
+	cc.c.proxy = cc.proxy
+	cc.c.namespace = namespace
+	cc.executor = newSessionExecutor(m)
+	cc.executor.session = cc
+	cc.executor.namespace = namespace
+	cc.executor.user = user
+	cc.executor.db = db
+	cc.executor.SetContextNamespace()
+	cc.executor.SetNamespaceDefaultCharset()
+	cc.executor.SetNamespaceDefaultCollationID()
+	cc.closed.Store(false)
+	return cc
+}
+
+// VerifC39Executor returns the session's executor.
+func (cc *Session) VerifC39Executor() *SessionExecutor { return cc.executor }
+
+// VerifC39WriteResult sends a statement's outcome to the client the way
+// Session.Run does: writeResponse of a result or of an error response.
+func (cc *Session) VerifC39WriteResult(rs *mysql.Result, execErr error, binary bool) error {
+	cc.c.SetSequence(1)
+	if execErr != nil {
+		return cc.writeResponse(CreateErrorResponse(cc.executor.GetStatus(), execErr))
+	}
+	return cc.writeResponse(CreateResultResponse(cc.executor.GetStatus(), rs, binary))
+}
